@@ -112,6 +112,105 @@ theorem passLinks_liveAcct (s : Sys F) (pkt : Sys.Bytes) (now j : Nat) (l : FLin
     subst hr
     exact ⟨rfl, rfl, fun h => by rw [hp] at h; cases h⟩
 
+/-! ### The fault list a probe copy's flush sees (audit round 2)
+
+`SelShellStep.stallProbesGo_link` / `ClientFx.probe` leave the fault list `fn` of a probe visit existential.  It
+is what the earlier sends of the same event left of `s.failNext`: nothing is ever added. -/
+
+/-- `stallProbesGo_link` with the origin of the probe's fault list: it is below the list the pass started with. -/
+theorem stallProbesGo_link_fn (pkt : Sys.Bytes) (seq : Option Nat) (now sel : Nat) (ls : List (FLink F)) (i : Nat)
+    (fn : List Nat) (k : Nat) (m : FLink F) (hm : ls[k]? = some m) :
+    ∃ l', (stallProbesGo pkt seq now sel ls i fn).1[k]? = some l' ∧
+      ((l' = m ∧ (i + k = sel ∨ m.stallGated = false ∨ m.core.connected = false)) ∨
+       (i + k ≠ sel ∧ m.stallGated = true ∧ m.core.connected = true ∧
+          ∃ fn', Hk.FnLe fn fn' ∧ l' = (Hk.probeLink m pkt seq now fn').1)) := by
+  induction ls generalizing i fn k with
+  | nil => simp at hm
+  | cons a rest ih =>
+    rw [Hk.stallProbesGo_cons]
+    split
+    · rename_i hc
+      cases k with
+      | zero =>
+        simp only [List.getElem?_cons_zero, Option.some.injEq] at hm
+        subst hm
+        refine ⟨_, by simp, .inl ⟨rfl, ?_⟩⟩
+        simp only [Bool.or_eq_true, decide_eq_true_eq, Bool.not_eq_true'] at hc
+        rcases hc with (h | h) | h
+        · exact .inl (by omega)
+        · exact .inr (.inl h)
+        · exact .inr (.inr h)
+      | succ k =>
+        simp only [List.getElem?_cons_succ] at hm ⊢
+        obtain ⟨l', h1, h2⟩ := ih (i + 1) fn k hm
+        refine ⟨l', h1, ?_⟩
+        have : i + 1 + k = i + (k + 1) := by omega
+        rw [this] at h2
+        exact h2
+    · rename_i hc
+      simp only [Bool.or_eq_true, decide_eq_true_eq, Bool.not_eq_true', not_or, Bool.not_eq_false] at hc
+      cases k with
+      | zero =>
+        simp only [List.getElem?_cons_zero, Option.some.injEq] at hm
+        subst hm
+        exact ⟨_, by simp, .inr ⟨by omega, hc.1.2, hc.2, fn, Hk.FnLe.refl _, rfl⟩⟩
+      | succ k =>
+        simp only [List.getElem?_cons_succ] at hm ⊢
+        obtain ⟨l', h1, h2⟩ := ih (i + 1) _ k hm
+        refine ⟨l', h1, ?_⟩
+        have : i + 1 + k = i + (k + 1) := by omega
+        rw [this] at h2
+        rcases h2 with h2 | ⟨a1, a2, a3, fn', hle, e⟩
+        · exact .inl h2
+        · exact .inr ⟨a1, a2, a3, fn', (Hk.probeLink_step false none a pkt seq now fn hc.2).2.trans hle, e⟩
+
+/-- **The fault list of a probe copy is what is left of `s.failNext`** (every conn id at most as often). -/
+theorem client_probe_fn (s : Sys F) (pkt : Sys.Bytes) (now j : Nat) (m l' : FLink F)
+    (hm : (passLinks s pkt now)[j]? = some m) (hl' : (handleSrtPacket s pkt now).1.links[j]? = some l')
+    (ht : clientTarget s pkt now ≠ some j) (hpass : passRan s pkt = true)
+    (hseq : (Codec.getSrtSequenceNumberS pkt).isSome = true) (hsome : (clientTarget s pkt now).isSome = true)
+    (hg : m.stallGated = true) (hc : m.core.connected = true) :
+    ∃ fn, Hk.FnLe s.failNext fn ∧ l' = (Hk.probeLink m pkt (Codec.getSrtSequenceNumberS pkt) now fn).1 := by
+  have hne : pkt.isEmpty = false := by
+    unfold passRan at hpass
+    cases h : pkt.isEmpty
+    · rfl
+    · rw [h] at hpass; simp at hpass
+  have hreg : s.reg.hasConnected = true := by
+    unfold passRan at hpass
+    rw [hne] at hpass
+    simpa using hpass
+  have hp : passLinks s pkt now = (runSelect s now).1.links := by
+    unfold passLinks; rw [hpass]; rfl
+  have htg : clientTarget s pkt now = Hk.clientSel s pkt now := by
+    unfold clientTarget; simp [hne, hreg]
+  rw [hp] at hm
+  cases hsel : Hk.clientSel s pkt now with
+  | none => rw [htg, hsel] at hsome; cases hsome
+  | some i =>
+    have hji : j ≠ i := by
+      intro h; subst h; exact ht (by rw [htg, hsel])
+    rw [Hk.handleSrtPacket_some s pkt now i hne hreg hsel] at hl'
+    have hf := forwardVia_link (runSelect s now).1 i pkt (Codec.getSrtSequenceNumberS pkt) now j m hm
+    rw [if_neg hji] at hf
+    obtain ⟨-, f2, -, -⟩ := Hk.forwardVia_pw false none (runSelect s now).1 i pkt
+      (Codec.getSrtSequenceNumberS pkt) now (fun h => by cases h)
+    have hfn : (runSelect s now).1.failNext = s.failNext := rfl
+    rw [hfn] at f2
+    unfold Hk.clientFwd at hl'
+    dsimp only at hl'
+    rw [if_pos hseq] at hl'
+    dsimp only at hl'
+    obtain ⟨x, h1, h2⟩ := stallProbesGo_link_fn pkt (Codec.getSrtSequenceNumberS pkt) now i _ 0
+      (forwardVia (runSelect s now).1 i pkt (Codec.getSrtSequenceNumberS pkt) now).1.failNext j m hf
+    rw [hl'] at h1
+    cases h1
+    rcases h2 with ⟨-, h | h | h⟩ | ⟨-, -, -, fn', hle, e⟩
+    · exact absurd (by omega) hji
+    · rw [hg] at h; cases h
+    · rw [hc] at h; cases h
+    · exact ⟨fn', f2.trans hle, e⟩
+
 /-- What a `client` event does to the liveness / accounting fields of link `j`. -/
 inductive ClientAcct (s : Sys F) (pkt : Sys.Bytes) (now j : Nat) (l l' : FLink F) : Prop
   /-- not the target, no probe copy: untouched -/
@@ -120,12 +219,14 @@ inductive ClientAcct (s : Sys F) (pkt : Sys.Bytes) (now j : Nat) (l l' : FLink F
   | target (ht : clientTarget s pkt now = some j)
       (h : liveAcct l' = liveAcct (Hk.fwdLink l pkt (Codec.getSrtSequenceNumberS pkt) now s.failNext).1)
   /-- a duplicate probe copy on a link the guard of THIS pass holds stall-gated: registered session,
-  data packet, guard on, link connected and latched or silence-pulled -/
+  data packet, guard on, link connected and latched or silence-pulled; the fault list `fn` its threshold flush
+  sees is what the earlier sends of this event left of `s.failNext` (no conn id more often than there) -/
   | probe (ht : clientTarget s pkt now ≠ some j) (hne : pkt ≠ []) (hreg : s.reg.hasConnected = true)
       (hon : s.cfg.stallDeselect = true) (hseq : (Codec.getSrtSequenceNumberS pkt).isSome = true)
       (hsome : (clientTarget s pkt now).isSome = true) (hc : l.core.connected = true)
       (hg : l'.core.connected = false ∨ l'.latchedSince ≠ 0 ∨ l'.silencePulled = true)
-      (h : ∃ fn, liveAcct l' = liveAcct (Hk.fwdLink l pkt (Codec.getSrtSequenceNumberS pkt) now fn).1)
+      (h : ∃ fn, (∀ a, fn.count a ≤ s.failNext.count a) ∧
+        liveAcct l' = liveAcct (Hk.fwdLink l pkt (Codec.getSrtSequenceNumberS pkt) now fn).1)
 
 omit [Scalar F] in
 theorem passRan_iff' (s : Sys F) (pkt : Sys.Bytes) :
@@ -145,7 +246,7 @@ theorem client_liveAcct (s : Sys F) (pkt : Sys.Bytes) (now j : Nat) (l l' : FLin
   | idle ht h => exact .idle ht (by rw [h, hml])
   | target ht h => exact .target ht (by rw [h]; exact liveAcct_fwdLink_congr hml _ _ _ _)
   | probe ht hpass hseq hsome hg hc h =>
-    obtain ⟨fn, rfl⟩ := h
+    obtain ⟨fn, hfnle, rfl⟩ := client_probe_fn s pkt now j m _ hm hx ht hpass hseq hsome hg hc
     obtain ⟨hne, hreg⟩ := (passRan_iff' s pkt).1 hpass
     -- the pass that gated the link ran with the guard on
     have hr : (runSelect s now).1.links[j]? = some m := by
@@ -161,7 +262,7 @@ theorem client_liveAcct (s : Sys F) (pkt : Sys.Bytes) (now j : Nat) (l l' : FLin
     rcases liveAcct_probeLink m pkt (Codec.getSrtSequenceNumberS pkt) now fn with h | h
     · exact .idle ht (by rw [h, hml])
     · refine .probe ht hne hreg hon' hseq hsome (by rw [← hcore]; exact hc) ?_
-        ⟨fn, by rw [h]; exact liveAcct_fwdLink_congr hml _ _ _ _⟩
+        ⟨fn, hfnle, by rw [h]; exact liveAcct_fwdLink_congr hml _ _ _ _⟩
       rcases probeLink_guard m pkt (Codec.getSrtSequenceNumberS pkt) now fn with hk | ht'
       · rcases hlp with hlp | hlp
         · exact .inr (.inl (by rw [hk.latched]; exact hlp))
